@@ -27,6 +27,7 @@ fn dispatch(op: &str, args: &[Sexp]) -> String {
         "gds.open" => crate::gdsio::op_open(args),
         "lefraw.import" => crate::props::c16::op_import(args),
         "rawproto.export" => crate::props::c14::op_export(args),
+        "rawproto.seq" => crate::props::c14::op_seq(args),
         "rawproto.import" => crate::props::c14::op_import(args),
         "rawgds.export" => crate::props::c0607::op_export(args),
         "gdsraw.import" => crate::props::c0607::op_import(args),
